@@ -1,10 +1,12 @@
 import Driver.Util
 import Driver.DeployId
 import Driver.Engine
+import Driver.Policy
 
 def main (args : List String) : IO UInt32 := do
   let stdin ← IO.getStdin
   match args with
   | ["deployid"] => Drv.loop stdin Drv.DeployId.step (); return 0
   | ["engine"] => Drv.loop stdin Drv.Engine.step {}; return 0
+  | ["policy"] => Drv.loop stdin Drv.Policy.step (); return 0
   | _ => IO.eprintln "usage: wfdriver <model>"; return 2
